@@ -2249,7 +2249,7 @@ def native_families(pid, tier):
     quick = tier == "quick"
     if pid == "C17":
         out += _c17_spawn_nest_harnesses(pid)
-    if pid in ("C01", "C10", "C11", "C12"):
+    if pid in ("C01", "C03", "C04", "C05", "C06", "C10", "C11", "C12"):
         out += _rand_diff_harnesses(pid, tier)
     if pid == "C18":
         out += _c18_blocked_sibling_harnesses(pid, tier)
